@@ -115,6 +115,20 @@ class Interp:
                     return [(p, None)]
             raise Untranslatable(ast.dump(st))
         if isinstance(st, ast.Return):
+            v = st.value
+            if (isinstance(v, ast.Call) and isinstance(v.func, ast.Attribute) and v.func.attr == "lstrip" and len(v.args) == 1
+                    and isinstance(v.args[0], ast.Constant) and v.args[0].value == b"\0"):
+                # bytes.lstrip(b"\0") on a list of BitVec8: one path per number of leading zero bytes
+                lst = self.expr(v.func.value, p)
+                if not isinstance(lst, list):
+                    raise Untranslatable("lstrip on non-bytes")
+                outs = []
+                for k in range(len(lst) + 1):
+                    conds = [b == 0 for b in lst[:k]] + ([lst[k] != 0] if k < len(lst) else [])
+                    q = p.fork(z3.And(*conds) if conds else z3.BoolVal(True))
+                    if self.feasible(q.cond):
+                        outs.append((q, ("return", lst[k:])))
+                return outs
             return [(p, ("return", self.expr(st.value, p) if st.value else None))]
         if isinstance(st, ast.Raise):
             exc = st.exc
@@ -194,6 +208,11 @@ class Interp:
             p.guards.append(z3.LShR(a << b, b) == a)
             p.guards.append((a << b) >= 0)
             return a << b
+        if isinstance(op, ast.Mod):
+            # only for non-negative operands (guarded): Python % equals unsigned remainder then
+            p.guards.append(a >= 0)
+            p.guards.append(b > 0)
+            return z3.URem(a, b)
         if isinstance(op, ast.BitAnd):
             return a & b
         if isinstance(op, ast.BitOr):
@@ -213,6 +232,11 @@ class Interp:
             if e.attr in p.state:
                 return p.state[e.attr]
             raise Untranslatable("self." + e.attr)
+        if isinstance(e, ast.BinOp) and isinstance(e.op, ast.Pow):
+            l, r = self.expr(e.left, p), self.expr(e.right, p)
+            if isinstance(l, int) and isinstance(r, int):
+                return l ** r
+            raise Untranslatable("symbolic power")
         if isinstance(e, ast.BinOp):
             return self.binop(e.op, self.expr(e.left, p), self.expr(e.right, p), p)
         if isinstance(e, ast.UnaryOp) and isinstance(e.op, ast.Not):
@@ -246,6 +270,14 @@ class Interp:
                     v = self.tobool(v) if (z3.is_bool(v) or isinstance(v, bool)) else self.bv(v)
                     val = v if val is None else z3.If(r.cond, v, val)
                 return val
+            if isinstance(f, ast.Attribute) and f.attr == "to_bytes" and len(e.args) == 2:
+                # int.to_bytes(n, "big") -> list of n BitVec8 (side condition: 0 <= value < 256^n)
+                val = self.bv(self.expr(f.value, p))
+                n = self.expr(e.args[0], p)
+                if not isinstance(n, int) or ast.literal_eval(e.args[1]) != "big" or 8 * n >= self.W:
+                    raise Untranslatable("to_bytes")
+                p.guards.append(z3.And(val >= 0, z3.ULT(val, self.bv(256 ** n))))
+                return [z3.Extract(8 * (n - i) - 1, 8 * (n - i - 1), val) for i in range(n)]
             name = ast.unparse(f)
             if name in self.hooks:
                 args = [self.expr(a, p) for a in e.args]
